@@ -1,8 +1,8 @@
 (** C19 (c) -- the index-order sequential run of the generated threads equals the kernel's own sequential
     definition: the functional terms of Gen/Kernels.v (generated from the same source by py2coq.KernelTranslator).
-    Proved for extract_tim, extract_bpass, mask_channels, dedisperse, subband and invert_freq; remove_zerodm and the online
-    moments have no functional twin in Gen/Kernels.v, the decimators carry np.empty/divcast plumbing: those are tied by the
-    correspondence run only. *)
+    Proved here for extract_tim, extract_bpass, mask_channels, dedisperse, subband and invert_freq, and in Proofs/C19_seq2.v
+    for remove_zerodm and the two decimators; the online moments have no functional twin in Gen/Kernels.v: they are tied by
+    the correspondence run only. *)
 From Coq Require Import ZArith List Bool Lia.
 Require Import SPP.Base.Rt SPP.Base.Iter SPP.Gen.Kernels.
 Require Import SPP.Model.C19_Prog SPP.Gen.C19Threads SPP.Model.C19_Footprints SPP.Proofs.C19_sched.
